@@ -144,6 +144,17 @@ CLAIMED = {
         "read simulator gen/reads.py; relative tolerance 1e-9",
         "DESIGN.md section 4 C07",
     ),
+    "C19": (
+        "end-to-end monitor: genotype() return value / exception and output files on simulated BAMs that lack the data",
+        "Real BAM files whose reads avoid the gene locus, cover it below the default or a configured minimum, lie only "
+        "between gene and pseudogene, cover only the pseudogene, or avoid the neutral region are genotyped with a BAM "
+        "profile, a written profile file and a user-supplied structure, in all output formats; the wrapper records the "
+        "returned solutions / raised error and parses the output file: no call and an explanatory AldyException are "
+        "required, simple output must not hold an unterminated partial line, pseudogene-only samples must be called as "
+        "whole-gene deletion and adequate samples must still be called.",
+        "read simulator gen/reads.py",
+        "DESIGN.md section 4 C19",
+    ),
 }
 
 NOT_YET = {}
